@@ -1,22 +1,13 @@
-#!/bin/sh
+#!/bin/bash
 # usage: tools/regress_seeds.sh [parallel]  — runs every seeded change in /verif/seeded against its property's quick
-# check (isolated: scratch worktree + scratch copy of /verif) and prints one line per seed:
+# check (isolated: scratch worktree of /repo + scratch copy of /verif) and prints one line per seed:
 #   <id> input | pins-only | MISSED
 par="${1:-5}"
 out=/tmp/scratch/regress; rm -rf $out; mkdir -p $out
-ls /verif/seeded | while read id; do echo $id; done > $out/list
-run1() {
-  id=$1; prop=$(echo $id | cut -c1-3)
-  /verif/tools/try_seed_iso.sh /verif/seeded/$id/patch.diff $prop > $out/$id.out 2>&1
-  if grep -q "no-failing-input-found" $out/$id.out; then echo "$id pins-only"
-  elif grep -q "^VIOLATION" $out/$id.out; then echo "$id input"
-  else echo "$id MISSED"; fi
-}
-export -f run1 2>/dev/null
-cat $out/list | xargs -P $par -I{} sh -c '
-  id={}; prop=$(echo $id | cut -c1-3); out=/tmp/scratch/regress
+ls /verif/seeded | xargs -P "$par" -I{} bash -c '
+  id={}; prop=${id:0:3}; out=/tmp/scratch/regress
   /verif/tools/try_seed_iso.sh /verif/seeded/$id/patch.diff $prop > $out/$id.out 2>&1
   if grep -q "no-failing-input-found" $out/$id.out; then echo "$id pins-only"
   elif grep -q "^VIOLATION" $out/$id.out; then echo "$id input"
   else echo "$id MISSED"; fi' | sort | tee $out/summary
-echo "input: $(grep -c ' input' $out/summary)  pins-only: $(grep -c pins-only $out/summary)  missed: $(grep -c MISSED $out/summary)"
+echo "input: $(grep -c " input" $out/summary)  pins-only: $(grep -c pins-only $out/summary)  missed: $(grep -c MISSED $out/summary)"
